@@ -575,9 +575,19 @@ fn run_bounds(case: &Case, st: &mut CaseStats, ctx: &Ctx) -> Result<(), Violatio
         }
         if let Some(r) = &case.count_rel {
             let target = r.of(p.max_htlcs as u64).min(6) as usize;
+            // every second case fills up with identical HTLCs (equal parts of one payment): limits
+            // count entries, not distinct entries
+            let dup_fill = case.feerate_arg % 2 == 1;
+            if dup_fill {
+                st.class("filled_with_identical_htlcs");
+            }
             while hs.len() < target {
                 let k = hs.len() as u8;
-                hs.push((k % 2 == 0, Htlc { h: if k % 2 == 0 { 0 } else { 2 }, sat: 20_000 + k as u64, cltv: cl(&CltvSel::Mid) }));
+                if dup_fill {
+                    hs.push((true, Htlc { h: 0, sat: 20_000, cltv: cl(&CltvSel::Mid) }));
+                } else {
+                    hs.push((k % 2 == 0, Htlc { h: if k % 2 == 0 { 0 } else { 2 }, sat: 20_000 + k as u64, cltv: cl(&CltvSel::Mid) }));
+                }
             }
             hs.truncate(target);
         }
